@@ -48,6 +48,9 @@ def universe(rnd):
     specs.append(("total", [(["call", 0, ["a0"], [["call", 1, ["a1"], []]]], None, None)]))
     specs.append(("decline", [(["call", 1, ["a1"], []], [], "a1")]))
     specs.append(("multi", [(["call", 2, ["v"], []], [], "v"), (["call", 0, ["b0"], []], [], "b0")]))
+    # one probe holding the SAME (interned) selector twice, spelled differently: two handlers on one
+    # selector object, each of which delivers (and each of which must be removed at deactivation)
+    specs.append(("multi-dup", [(["call", 1, ["b1", "v"], []], [], "v"), (["call", 1, ["b1", "v"], []], [], "v")]))
     # a total probe whose subscriber raises while its record is being delivered (at the exit of
     # the outermost matched call): the exception must not disturb anything else
     specs.append(("total-raising", [(["call", rnd.randrange(NF), ["v"], []], None, None)]))
@@ -96,7 +99,7 @@ class World:
         from ptera.utils import ABSENT
 
         kind, sels = self.specs[si]
-        texts = [CT.render(s, fp, fv) for (s, fp, fv) in sels]
+        texts = [CT.render(s, fp, fv, chain=(kind == "multi-dup" and j == 1)) for j, (s, fp, fv) in enumerate(sels)]
         out = []
         if kind == "decline":
             prb = probing(*texts, env=self.ns, overridable=True)
